@@ -18,7 +18,7 @@ inductive Sch
   | any                                                   -- {}  (also: `format` is an annotation in 2020-12)
   | typ (t : JT) (format : Option String)                 -- {"type": t, "format": …}
   | utc                                                   -- {"type": "string", "pattern": "^UTC([+-][0-2][0-9]:[0-5][0-9])?$"}
-  | enum (vals : List V)                                  -- {"enum": […]} / {"const": v}
+  | enum (vals : List V) (constIfSingle : Bool)           -- {"enum": […]}; Literal with one value: {"const": v}
   | anyOf (ss : List Sch)
   | arrOf (items : Sch) (unique : Bool)                   -- {"type": "array", "items": …, "uniqueItems": …}
   | tupleOf (pre : List Sch)                              -- {"type": "array", "prefixItems": […], "minItems": n, "maxItems": n}
@@ -60,8 +60,8 @@ def schemaOf (ntd : Bool) : Ty → Sch
   | .float => .typ .number none
   | .str => .typ .string none
   | .leaf k => leafSch k
-  | .enum _ ms => .enum (ms.map (·.2))
-  | .lit vals => .enum (vals.map (·.2))
+  | .enum _ ms => .enum (ms.map (·.2)) false
+  | .lit vals => .enum (vals.map (·.2)) true
   | .opt t => .anyOf [schemaOf ntd t, .typ .null none]
   | .union ts => .anyOf (schemaOfL ntd ts)
   | .coll o t => .arrOf (schemaOf ntd t) (o == .set || o == .frozenset)
@@ -108,7 +108,7 @@ def Valid : Sch → V → Prop
   | .any, _ => True
   | .typ t _, v => HasJT t v
   | .utc, v => ∃ s, v = .str s ∧ UtcOk s.toList
-  | .enum vals, v => v ∈ vals
+  | .enum vals _, v => v ∈ vals
   | .anyOf ss, v => ValidAny ss v
   | .arrOf items _, v => ∃ bs, v = .coll .list bs ∧ ∀ b ∈ bs, Valid items b
   | .tupleOf pre, v => ∃ bs, v = .coll .list bs ∧ ValidL pre bs
